@@ -9,6 +9,19 @@ HERE = os.path.dirname(os.path.dirname(os.path.abspath(__file__)))
 ALL = ["C%02d" % i for i in range(1, 19)]
 
 CHECKS = {
+    "C01": dict(
+        text="Machine-checked proof (Coq, generic in the ring: Z for execution, any commutative ring incl. R for meaning) that the reverse sweep of Operation.backward, run in the "
+             "order produced by the DFS of collect_all_tensors_and_clear_grads, computes the adjoint of forward-mode tangents for EVERY program (DAG of any shape/depth, constants as cuts, "
+             "repeated operands, any arity, broadcasting as gather/scatter): sum_x <x.grad, dx> = <seed, dL> for all directions, and tensors L does not depend on receive nothing; every op "
+             "of the exact registry (segment_sum o kernel o gathers) is proved to have an exact VJP. Tie: random DAG programs over ~30 real MyGrad ops are run on /repo and every tensor's "
+             "forward value, _grad (exact integers), constant flag and creator/consumer bookkeeping are compared inside Coq with the executable model Model/GraphP.v.",
+        design_ref="DESIGN.md 5 (C01)",
+        note="Trusted: Coq kernel; the translation of each real op into index maps (harness/exactops.py, self-checked against NumPy and re-validated by comparing forward values); "
+             "NumPy kernels; exactness of float64 on small integers. Derivative = algebraic (formal) derivative of polynomial / piecewise-linear programs at the evaluation point; "
+             "transcendental ops are outside this check (C02). Order-independence over commutative rewrites is exercised by the generator (operand order randomised), proved only as "
+             "'any valid order gives the adjoint'. No axioms.",
+        technique="Coq proof by potential-function invariant over the sweep + DFS order spec; exact-integer correspondence evaluated by vm_compute",
+    ),
     "C15": dict(
         text="Machine-checked proof (Coq) that in the model of ContextTracker and the three manager objects every with-block / decorated call, "
              "for ANY body (arbitrary nesting, re-entrant use, exceptions at any depth, turn_* calls), exits without error and restores the governed "
